@@ -89,11 +89,11 @@ func VH_C08_ReadSTL() {
 	case 2: // creation / revision dates
 		copy(d[224:230], vsymstr(3, "019 ")+"101")
 	case 3: // revision number, total number of TTI blocks, subtitles, groups
-		copy(d[236:238], vsymstr(2, "09 x"))
-		copy(d[238:243], vsymstr(2, "09 x")+"   ")
+		copy(d[236:238], vsymstr(2, "09 x-"))
+		copy(d[238:243], vsymstr(2, "09 x-")+"   ")
 	case 4: // max chars / rows, timecodes
-		copy(d[251:253], vsymstr(2, "09 x"))
-		copy(d[253:255], vsymstr(2, "09 x"))
+		copy(d[251:253], vsymstr(2, "09 x-"))
+		copy(d[253:255], vsymstr(2, "09 x-"))
 		copy(d[256:264], vsymstr(3, "09 x:")+"     ")
 	case 5: // TTI header and text
 		d[1024+3] = nondetByteIn("\xff\xfe") // extension block number
